@@ -773,4 +773,57 @@ for _sk in ("none", "int"):
     for _stepped in (False, True):
         register(CORE, "GroupBy._find_first_chunk_in_slice", f"start={_sk},step={'int' if _stepped else 'None'}",
                  {"self": {"key_is_chunked": "bool", "_group_key_lengths": "arr:int:int64", "__len__": "int"}, "mask": {"start": _sk, "step": "int" if _stepped else "none"}},
-                 _ffc_contract(_sk, _stepped), specs={"offc": offc}, props=("C05", "C03"), lemma_deps=("L-ps-mono",))
+                 _ffc_contract(_sk, _stepped), specs={"offc": offc}, props=("C05", "C03", "C13"), lemma_deps=("L-ps-mono",))
+
+# ----------------------------------------------------------------------------- GroupBy.count_ikey (plain Python glue in core.py: C02 / C03 / C05 / C13)
+# Rows per GLOBAL group code under a mask.  On a chunked key every chunk holds chunk-local codes; `_group_key_pointers[c][l]` is the global code of local code l of chunk c
+# (None once the codes have been unified in place).  A slice mask drops the leading chunks that lie wholly before it: `_resolve_mask_argument_into_chunks` returns the remaining
+# key chunks, the index of the first of them (proved for `_find_first_chunk_in_slice` above) and the per-chunk masks; count_ikey must pair returned chunk i with the pointer table
+# of chunk first_chunk_in + i.   CSZ(i, l) = selected rows of returned chunk i with local code l (what group_size reports; its contract is ASSUMED here - it is the dispatch over
+# the proved kernel _group_by_reduce, checked in the bounded tier of C04);  GC(g, i) = selected rows with global code g in the first i returned chunks:
+#     GC(g, 0) = 0;   GC(ptr[l], i + 1) = GC(ptr[l], i) + CSZ(i, l)  for every local code l of chunk i;   GC(g, i + 1) = GC(g, i)  for a global code no local code maps to
+# (a definition because each pointer table is injective - required, and what the factorisation establishes: distinct local codes are distinct labels).
+CSZ = z3.Function("CSZ", I, I, I); GCf = z3.Function("GC", I, I, I)
+_RESOLVE = {"params": ["mask"], "returns": ["chunkstruct:int:int64", "int", "optlist"], "requires": [],
+            "assumed": "GroupBy._resolve_mask_argument_into_chunks (pandas / pyarrow glue): returns the key chunks first_chunk_in .. of the (sliced) key, that index, and one mask entry per returned chunk; local codes of returned chunk j lie below the length of pointer table first_chunk_in + j. Not proved: decided within a bound by the run-time contracts of C03 / C05 / C13",
+            # ASSUMED contract of the pandas / pyarrow glue (decided in the bounded tier of C03 / C05 / C13, not proved): the chunks returned are chunks first .. first + k - 1 of the key
+            "ensures": ["0 <= result1", "len(result2) == len(result0.chunks)",
+                        "implies(PTRS_GIVEN(), result1 + len(result0.chunks) <= NPTR())",
+                        "forall(j, 0, len(result0.chunks), forall(p, 0, len(result0.chunks[j]), result0.chunks[j][p] < CODEBOUND(result1 + j)))"]}
+_GSIZE = {"params": ["group_key", "ngroups", "mask"], "returns": ["arr:int:int64"], "result_len": ["ngroups"], "defaults": {"mask": None},
+          "assumed": "numba.group_size(codes, n, mask)[l] == number of selected rows with code l, requires every code < n: the Python dispatch (_group_func_wrap) over the PROVED kernel _group_by_reduce with ScalarFuncs.count; the dispatch itself is not proved: decided within a bound by the run-time contracts of C04",
+          # ASSUMED: group_size(codes, n, mask)[l] = number of selected rows with code l (negative codes ignored); requires every code below n
+          "requires": ["ngroups >= 0", "forall(p, 0, len(group_key), group_key[p] < ngroups)"],
+          "ensures": ["forall(l, 0, ngroups, result[l] == CSZ(jchunk, l) and CSZ(jchunk, l) >= 0)"]}
+def _count_ikey_contract(pointers):
+    P = "self._group_key_pointers"; NG = "self.ngroups"
+    if pointers:
+        ptr = f"{P}[first_chunk_in + _it0]"
+        req = [f"{NG} >= 0", f"forall(g, 0, {NG}, GC(g, 0) == 0)",
+               f"forall(c, 0, len({P}), forall(l, 0, len({P}[c]), 0 <= {P}[c][l] and {P}[c][l] < {NG}))",
+               f"forall(c, 0, len({P}), forall(l, 0, len({P}[c]), forall(m, 0, l, {P}[c][m] != {P}[c][l])))"]
+        unf = [f"forall(l, 0, len({ptr}), GC({ptr}[l], _it0 + 1) == GC({ptr}[l], _it0) + CSZ(_it0, l))",
+               f"forall(g, 0, {NG}, implies(forall(l, 0, len({ptr}), {ptr}[l] != g), GC(g, _it0 + 1) == GC(g, _it0)))"]
+    else:
+        req = [f"{NG} >= 0", f"forall(g, 0, {NG}, GC(g, 0) == 0)"]
+        unf = [f"forall(g, 0, {NG}, GC(g, _it0 + 1) == GC(g, _it0) + CSZ(_it0, g))"]
+    return {"requires": req, "call_ghost": {"numba_funcs.group_size": {"jchunk": "i"}},
+            "loops": {0: {"iter": "enumerate(group_key.chunks)", "invariant": [f"len(count) == {NG}", f"forall(g, 0, {NG}, count[g] == GC(g, _it0))"], "unfold": unf}},
+            "ensures": [f"len(result) == {NG}", f"forall(g, 0, {NG}, result[g] == GC(g, len(group_key.chunks)))"]}
+def _count_ikey_specs(pointers):
+    def mk():
+        return {"CSZ": CSZ, "GC": GCf, "PTRS_GIVEN": (lambda: z3.BoolVal(pointers)), "NPTR": None, "CODEBOUND": None}
+    return mk
+def _late_count_ikey(pointers):
+    def setup(eng):
+        if pointers:
+            eng.specs["NPTR"] = lambda: z3.Int("nchunks_self._group_key_pointers"); ln = z3.Function("clen_self._group_key_pointers", I, I)
+            eng.specs["CODEBOUND"] = lambda c: ln(c)          # local codes of chunk c lie below the length of its pointer table
+        else:
+            eng.specs["NPTR"] = lambda: z3.IntVal(0); eng.specs["CODEBOUND"] = lambda c: z3.Int("self.ngroups")
+    return setup
+for _ptr in (True, False):
+    register(CORE, "GroupBy.count_ikey", f"chunked key,pointers={'tables' if _ptr else 'None'}",
+             {"self": {"key_is_chunked": "const:True", "ngroups": "int", "_group_key_pointers": "chunks:int:int64" if _ptr else "none"}, "mask": "opaque"},
+             _count_ikey_contract(_ptr), specs=_count_ikey_specs(_ptr), setup=_late_count_ikey(_ptr),
+             callees={"self._resolve_mask_argument_into_chunks": _RESOLVE, "numba_funcs.group_size": _GSIZE}, props=("C02", "C03", "C05", "C13"))
